@@ -655,7 +655,181 @@ fn timeout_case() -> BoxedStrategy<TimeoutCase> {
         .boxed()
 }
 
+// --------------------------------------------- cancellation while queued to write
+
+#[derive(Debug, Clone, Serialize, Deserialize, Hash, PartialEq, Eq)]
+pub struct QueuedCancel {
+    pub ws: bool,
+    pub stall_ms: u16,
+    pub cancel_after_ms: u8,
+    pub use_timeout_wrapper: bool,
+    pub queued: u8,
+}
+
+/// A call cancelled while it is only waiting its turn to write (another call is
+/// mid-write of a large frame to a slow reader) has written nothing: it must leave
+/// nothing behind and the client must keep serving other calls.
+pub fn check_queued_cancel(c: &QueuedCancel) -> CheckResult {
+    const BIG: usize = 6 << 20;
+    let phase = std::sync::Arc::new(std::sync::atomic::AtomicUsize::new(0));
+    let ph = phase.clone();
+    let mark = move |n: usize| ph.store(n, std::sync::atomic::Ordering::SeqCst);
+    let outer = block_on(async { tokio::time::timeout(Duration::from_secs(90), async {
+        let sock = socket2::Socket::new(socket2::Domain::IPV4, socket2::Type::STREAM, None)
+            .map_err(|e| Fail::new("harness-listen", e.to_string()))?;
+        sock.set_recv_buffer_size(4096).ok();
+        sock.set_reuse_address(true).ok();
+        let any: std::net::SocketAddr = "127.0.0.1:0".parse().unwrap();
+        sock.bind(&any.into()).map_err(|e| Fail::new("harness-listen", e.to_string()))?;
+        sock.listen(8).map_err(|e| Fail::new("harness-listen", e.to_string()))?;
+        sock.set_nonblocking(true).ok();
+        let std_l: std::net::TcpListener = sock.into();
+        let addr = std_l.local_addr().unwrap();
+        let listener = tokio::net::TcpListener::from_std(std_l).map_err(|e| Fail::new("harness-listen", e.to_string()))?;
+        let (client, mut io) = if c.ws {
+            let url = format!("ws://{addr}");
+            let (cl, io) = tokio::join!(WebSocketClient::connect(&url), accept_ws(&listener));
+            (
+                AnyClient::W(cl.map_err(|e| Fail::new("harness-connect", e.to_string()))?),
+                AnyIo::W(io.map_err(|e| Fail::new("harness-accept", e.to_string()))?),
+            )
+        } else {
+            let cl = AsyncClient::connect(addr).await.map_err(|e| Fail::new("harness-connect", e.to_string()))?;
+            let io = accept_tcp(&listener).await.map_err(|e| Fail::new("harness-accept", e.to_string()))?;
+            (AnyClient::A(cl), AnyIo::T(io))
+        };
+        mark(1);
+        // A: big call, holds the writer while the peer is not reading
+        let big_body = vec![0x5Au8; BIG];
+        let a = match &client {
+            AnyClient::A(cl) => {
+                let cl = cl.clone();
+                tokio::spawn(async move { cl.call_with_formats("/c/0", 1, Some(&big_body), 0).await.map(|m| m.body).map_err(|e| e.to_string()) })
+            }
+            AnyClient::W(cl) => {
+                let cl = cl.clone();
+                tokio::spawn(async move { cl.call_with_formats("/c/0", 1, Some(&big_body), 0).await.map(|m| m.body).map_err(|e| e.to_string()) })
+            }
+            AnyClient::B(_) => unreachable!(),
+        };
+        tokio::time::sleep(Duration::from_millis(4)).await;
+        // queued calls, cancelled while waiting for the writer
+        let mut queued = Vec::new();
+        for i in 0..c.queued.max(1) {
+            let k = 100 + i as usize;
+            let h = if c.use_timeout_wrapper {
+                let inner = client.spawn_call(k, Some(Duration::from_millis(c.cancel_after_ms as u64 + 1)));
+                inner
+            } else {
+                client.spawn_call(k, None)
+            };
+            queued.push(h);
+        }
+        tokio::time::sleep(Duration::from_millis(c.cancel_after_ms as u64 + 2)).await;
+        let mut late: Vec<tokio::task::JoinHandle<Result<Value, String>>> = Vec::new();
+        if !c.use_timeout_wrapper {
+            for h in &queued {
+                h.abort();
+            }
+            for h in queued {
+                let _ = h.await;
+            }
+        } else {
+            // a per-call timeout only bounds the wait for the response: these calls
+            // stay queued behind the big write and are sent (and answered) later
+            late = queued;
+        }
+        mark(2);
+        tokio::time::sleep(Duration::from_millis(c.stall_ms as u64)).await;
+        // peer drains: the big frame arrives whole, is answered; queued-but-cancelled calls
+        // that did reach the wire (per-call timeout variant) are answered too
+        mark(3);
+        let mut answered_big = false;
+        let deadline = std::time::Instant::now() + watchdog();
+        while !answered_big && std::time::Instant::now() < deadline {
+            match tokio::time::timeout(watchdog(), io.recv()).await {
+                Ok(Ok(Some(f))) => {
+                    let k = k_of(&f);
+                    let _ = io.send(&ok_response(&f)).await;
+                    if k == 0 {
+                        answered_big = true;
+                    }
+                }
+                other => {
+                    return Err(Fail::new(
+                        "big-frame-lost",
+                        format!("the peer did not receive the big request whole: {:?}", other.map(|r| r.map(|o| o.map(|f| f.path())))),
+                    ));
+                }
+            }
+        }
+        mark(4);
+        match tokio::time::timeout(watchdog(), a).await {
+            Ok(Ok(Ok(body))) => ensure!(body == br#"{"k":0}"#, "wrong-response", "big call got {:?}", String::from_utf8_lossy(&body)),
+            Ok(Ok(Err(e))) => return Err(Fail::new("bystander-call-failed", format!("the big call failed although only queued calls were cancelled: {e}"))),
+            _ => return Err(Fail::new("call-hangs", "the big call did not return")),
+        }
+        mark(5);
+        // the client keeps serving
+        let follow = client.spawn_call(777, Some(Duration::from_secs(60)));
+        loop {
+            match tokio::time::timeout(watchdog(), io.recv()).await {
+                Ok(Ok(Some(f))) => {
+                    let k = k_of(&f);
+                    let _ = io.send(&ok_response(&f)).await;
+                    if k == 777 {
+                        break;
+                    }
+                }
+                _ => break,
+            }
+        }
+        match tokio::time::timeout(watchdog(), follow).await {
+            Ok(Ok(Ok(v))) => ensure!(v.get("k").and_then(Value::as_u64) == Some(777), "wrong-response", "follow-up returned {v}"),
+            Ok(Ok(Err(e))) => {
+                return Err(Fail::new(
+                    "follow-up-failed",
+                    format!("after cancelling calls that were only queued to write, a follow-up call fails: {e}"),
+                ));
+            }
+            _ => return Err(Fail::new("call-hangs", "follow-up did not return")),
+        }
+        mark(7);
+        for h in late {
+            match tokio::time::timeout(watchdog(), h).await {
+                Ok(_) => {}
+                Err(_) => return Err(Fail::new("call-hangs", "a queued call with a per-call timeout never returned")),
+            }
+        }
+        let pending = client.pending();
+        ensure!(pending == 0, "pending-residue", "{pending} entries remain in the pending map");
+        Ok(CaseInfo::new(true)
+            .class(if c.ws { "Ws" } else { "Async" })
+            .class(if c.use_timeout_wrapper { "per-call-timeout" } else { "abort" }))
+    }).await });
+    match outer {
+        Ok(r) => r,
+        Err(_) => Err(Fail::new(
+            "harness-stuck",
+            format!("case did not finish within 90 s; last phase {}", phase.load(std::sync::atomic::Ordering::SeqCst)),
+        )),
+    }
+}
+
+fn queued_case() -> BoxedStrategy<QueuedCancel> {
+    (any::<bool>(), 20u16..80, 1u8..12, any::<bool>(), 1u8..4)
+        .prop_map(|(ws, stall_ms, cancel_after_ms, use_timeout_wrapper, queued)| QueuedCancel {
+            ws,
+            stall_ms,
+            cancel_after_ms,
+            use_timeout_wrapper,
+            queued,
+        })
+        .boxed()
+}
+
 pub fn run(ctx: &Ctx, rep: &Report) {
+    run_prop_threads(ctx, rep, "cancel-queued", ctx.tier.pick(48, 1_000), ctx.threads.min(8), &|| queued_case(), &check_queued_cancel);
     run_enum(ctx, rep, "fault-grid", &grid(), true, &check_fault);
     run_prop(ctx, rep, "faults", ctx.tier.pick(1_200, 30_000), &|| fault_case(), &check_fault);
     run_prop(ctx, rep, "timeouts", ctx.tier.pick(600, 12_000), &|| timeout_case(), &check_timeout);
@@ -665,6 +839,7 @@ pub fn replay(sub: &str, case: &serde_json::Value) -> Result<(), Fail> {
     match sub {
         "fault-grid" | "faults" => replay_case::<FaultCase>(case, &check_fault),
         "timeouts" => replay_case::<TimeoutCase>(case, &check_timeout),
+        "cancel-queued" => replay_case::<QueuedCancel>(case, &check_queued_cancel),
         _ => Err(Fail::new("replay-unknown-sub", sub.to_string())),
     }
 }
